@@ -122,7 +122,14 @@ func execRTJ(in string) string {
 	if (dverr == nil) != wantOK || (dverr == nil && strings.Join(obsGetters(dv), " ") != strings.Join(out[2:], " ")) {
 		gate = "gate=0"
 	}
-	return strings.Join(append(out, cross), " ") + " ## orig=" + strings.Join(orig, "|") + " " + ev + " " + gate
+	vjTok, dvjTok := "vj=ok", "dvj=ok"
+	if verr != nil {
+		vjTok = "vj=err"
+	}
+	if dverr != nil {
+		dvjTok = "dvj=err"
+	}
+	return strings.Join(append(out, cross, vjTok, dvjTok), " ") + " ## orig=" + strings.Join(orig, "|") + " " + ev + " " + gate
 }
 
 func genC12(tier string, seed uint64, emit func(string)) {
